@@ -65,6 +65,16 @@ fn streams() -> Vec<(String, Vec<Req>)> {
                 Req::delta(op::DECR, b"a", 1, 10, 0, 0).opaque(6),
             ],
         ),
+        (
+            // an oversized request (1 KiB limit) in the middle: its body is skipped, not parsed
+            "with-oversized".to_string(),
+            vec![
+                Req::delta(op::INCR, b"a", 1, 1, 0, 0).opaque(1),
+                Req::store(op::SET, b"big", &vec![b'x'; 1024 + 300], 0, 0, 0).opaque(2),
+                Req::delta(op::INCR, b"a", 1, 1, 0, 0).opaque(3),
+                Req::store(op::SET, b"b", b"x", 5, 0, 0).opaque(4),
+            ],
+        ),
     ]
 }
 
@@ -102,7 +112,20 @@ fn run_case(sname: &str, reqs: &[Req], refs: &(Vec<Content>, Vec<usize>), offset
     }
     // requests completely contained in bytes[..offset]
     let complete = ends.iter().filter(|e| **e <= offset).count();
-    let w = NetWorld::new(NetCfg::default())?;
+    // the cut falls inside the body of an oversized request: its 0x03 may or may not be out already
+    let in_oversized_body = {
+        let victim = ends.iter().position(|e| *e > offset);
+        match victim {
+            Some(v) => {
+                let start = if v == 0 { 0 } else { ends[v - 1] };
+                reqs[v].body_length() > 1024 && offset >= start + 24
+            }
+            None => false,
+        }
+    };
+    // silence: the limit leaves room for the observer and the faulty connection only, so that
+    // "the server keeps serving" has a meaning for a connection that is never dropped
+    let w = NetWorld::new(if fault == Fault::Silence { NetCfg { conn_limit: 2, ..NetCfg::default() } } else { NetCfg::default() })?;
     let mut obs = w.connect()?;
     if let Err(e) = obs.step(&w, &Req::store(op::SET, b"obs", b"mine", 9, 0, 0).opaque(0xeb1).bytes()) {
         return Ok(Res {
@@ -114,6 +137,7 @@ fn run_case(sname: &str, reqs: &[Req], refs: &(Vec<Content>, Vec<usize>), offset
     let mut steps = 2u64;
     let name = format!("stream {} cut at byte {} of {} ({} complete requests) fault {:?}", sname, offset, bytes.len(), complete, fault);
     let mut expected_js: Vec<usize> = vec![complete];
+    let mut silent_still_open = false;
     match fault {
         Fault::Close => {
             let _ = c.step(&w, &bytes[..offset]);
@@ -164,12 +188,7 @@ fn run_case(sname: &str, reqs: &[Req], refs: &(Vec<Content>, Vec<usize>), offset
             let _ = obs.step(&w, &Req::bare(op::NOOP).opaque(0xeb2).bytes());
             w.advance(31);
             c.pump();
-            if !c.eof {
-                return Ok(Res {
-                    viol: Some(("silence|not-closed".into(), format!("{}: connection still open after 61 s of silence", name))),
-                    steps,
-                });
-            }
+            silent_still_open = !c.eof;
         }
     }
     steps += 2;
@@ -182,7 +201,7 @@ fn run_case(sname: &str, reqs: &[Req], refs: &(Vec<Content>, Vec<usize>), offset
         let j = expected_js[0];
         if residue != 0 {
             problem = Some(("responses|residue".into(), format!("{} stray bytes in the response stream", residue)));
-        } else if resps.len() != refs.1[j] {
+        } else if resps.len() != refs.1[j] && !(in_oversized_body && resps.len() == refs.1[j] + 1) {
             problem = Some((
                 format!("responses|{:?}", fault),
                 format!("{} responses received, expected {} (one per loud completed request)", resps.len(), refs.1[j]),
@@ -233,7 +252,13 @@ fn run_case(sname: &str, reqs: &[Req], refs: &(Vec<Content>, Vec<usize>), offset
     let mut fresh = w.connect()?;
     let fresh_io = fresh.step(&w, &Req::bare(op::NOOP).opaque(0xf5).bytes());
     if fresh_io.is_err() || wire::split_responses(&fresh.got).0.len() != 1 || !w.server_alive() {
-        problem = problem.or(Some(("server|not-serving".into(), "a fresh connection is not served after the fault".into())));
+        problem = problem.or(Some((
+            "server|not-serving".into(),
+            format!(
+                "a fresh connection is not served after the fault{}",
+                if silent_still_open { " (connection limit 2: the silent connection is still open after 61 s and keeps its slot)" } else { "" }
+            ),
+        )));
     }
     Ok(Res { viol: problem.map(|(s, wh)| (s, format!("{}: {}", name, wh))), steps: steps + 2 })
 }
@@ -244,7 +269,7 @@ pub fn check(tier: Tier, threads: usize) -> CheckOutcome {
     let refs: Vec<(Vec<Content>, Vec<usize>)> = ss.iter().map(|(_, r)| reference(r)).collect();
     let mut cases: Vec<(usize, usize, Fault)> = vec![];
     for (si, (_, reqs)) in ss.iter().enumerate() {
-        if tier == Tier::Quick && si > 0 {
+        if tier == Tier::Quick && si == 1 {
             continue;
         }
         let len: usize = reqs.iter().map(|r| r.bytes().len()).sum();
